@@ -4,7 +4,8 @@
    round 4:      python -m hv.seedimport F7 4        (/tmp/out4_F7; likewise -> Cxx-F7-k)
    round 5:      python -m hv.seedimport G7 5        (/tmp/out5_G7; likewise -> Cxx-G7-k)
    round 6:      python -m hv.seedimport R7 6        (/tmp/out6_R7; likewise -> Cxx-R7-k)
-   round 7:      python -m hv.seedimport X7 7        (/tmp/out7_X7; likewise -> Cxx-X7-k)"""
+   round 7:      python -m hv.seedimport X7 7        (/tmp/out7_X7; likewise -> Cxx-X7-k)
+   round 8:      python -m hv.seedimport Y7 8        (/tmp/out8_Y7; likewise -> Cxx-Y7-k)"""
 import json
 import os
 import re
@@ -42,6 +43,7 @@ def main():
                         + (f'; round 3: free choice of property, confined to compiler area {key}' if rnd == 3 else '')
                         + (f'; round 4: free choice of property and place, confined to language feature focus {key}' if rnd == 4 else '')
                         + (f'; round 7: starting from one shipped example program ({key}); the change must leave every example unchanged and break a plausible variation of it' if rnd == 7 else '')
+                        + (f'; round 8: a good-faith optimisation / refactor / clean-up on a given theme ({key}) that is wrong in a corner, or two cooperating edits; examples byte-identical' if rnd == 8 else '')
                         + (f'; round 6: confined to one region of the code ({key}), free choice of property' if rnd == 6 else '')
                         + (f'; round 5: free choice of property and place, focus on a combination of two features ({key}), asked for changes that need more to manifest' if rnd == 5 else ''))
         meta.setdefault('needs_to_manifest', 'see notes.md')
